@@ -838,13 +838,19 @@ func Run(tier string) int {
 		st.Transitions += lst.Transitions
 	}
 	var bigSt *mc.BFSStats
-	if tier != "thorough" {
-		// run-time compaction in the quick tier: the exploration starts behind operation sequences that leave
+	{
+		// run-time compaction behind prefixes (both tiers; thorough goes one operation further and also
+		// explores a small alphabet from the empty file, below): the exploration starts behind operation sequences that leave
 		// 16 MiB of invalidated records in the file (so that the next store compacts it while the object is
 		// in use), with a live record before / behind the freed one, and goes three (two) operations on
 		be := newEnv(rep, bigLists(), 0)
 		be.stats, be.tally = stats, e.tally
 		be.deadline = time.Now().Add(60 * time.Second)
+		bonus := 0
+		if tier == "thorough" {
+			bonus = 1
+			be.deadline = time.Now().Add(6 * time.Minute)
+		}
 		noBig := func(o op) bool { return o.kind == "store" && be.lists[o.list].big }
 		var cst mc.BFSStats
 		var names []string
@@ -856,9 +862,12 @@ func Run(tier string) int {
 			{[]string{"store(0,big)", "store(1,runs-ct)", "invalidate(0)"}, 3},
 			{[]string{"store(1,c1)", "store(0,big)", "invalidate(0)"}, 2},
 			{[]string{"store(1,c1)", "store(0,big)", "store(2,runs-ct)", "invalidate(0,1)"}, 2},
+			// a stream stored twice in a row (the first record is superseded, not invalidated) in front of the freed space
+			{[]string{"store(1,c1)", "store(1,runs-ct)", "store(0,big)", "invalidate(0,1)"}, 2},
+			{[]string{"store(1,c1)", "store(1,runs-ct)", "store(0,big)", "invalidate(0)"}, 3},
 		} {
-			bst := mc.BFS(be.prefixSpec(pf.ops, noBig), pf.depth, 0, be.deadline, rep)
-			names = append(names, fmt.Sprintf("[%s] + %d", strings.Join(pf.ops, " ; "), pf.depth))
+			bst := mc.BFS(be.prefixSpec(pf.ops, noBig), pf.depth+bonus, 0, be.deadline, rep)
+			names = append(names, fmt.Sprintf("[%s] + %d", strings.Join(pf.ops, " ; "), pf.depth+bonus))
 			cst.States += bst.States
 			cst.Transitions += bst.Transitions
 			if bst.CapHit != "" {
@@ -870,6 +879,8 @@ func Run(tier string) int {
 		rep.Coverage["compaction_prefixes"] = names
 		rep.Coverage["compaction_states"] = cst.States
 		rep.Coverage["compaction_transitions"] = cst.Transitions
+		rep.Coverage["compaction_prefix_states"] = cst.States
+		rep.Coverage["compaction_prefix_transitions"] = cst.Transitions
 		rep.Coverage["runtime_compactions_observed"] = atomic.LoadInt64(&stats.runtimeCompactions)
 		if cst.CapHit != "" {
 			rep.Coverage["exhaustive"] = false
@@ -893,7 +904,6 @@ func Run(tier string) int {
 		be.deadline = time.Now().Add(4 * time.Minute)
 		bst := mc.BFS(be.spec(), 4, 0, be.deadline, rep)
 		be.cleanup()
-		bigSt = &bst
 		rep.Coverage["compaction_states"] = bst.States
 		rep.Coverage["compaction_transitions"] = bst.Transitions
 		rep.Coverage["compaction_depth_completed"] = bst.DepthComplete
@@ -904,10 +914,12 @@ func Run(tier string) int {
 			caps, _ := rep.Coverage["caps_hit"].([]string)
 			rep.Coverage["caps_hit"] = append(caps, "compaction exploration: "+bst.CapHit)
 		}
-		rep.Coverage["states"] = st.States + bst.States
-		rep.Coverage["transitions"] = st.Transitions + bst.Transitions
-		rep.Coverage["traces_validated_against_impl"] = st.Transitions + bst.Transitions
-		rep.Coverage["evaluations"] = st.Transitions + bst.Transitions
+		pst := *bigSt // the prefix explorations above
+		bigSt = &bst
+		rep.Coverage["states"] = st.States + bst.States + pst.States
+		rep.Coverage["transitions"] = st.Transitions + bst.Transitions + pst.Transitions
+		rep.Coverage["traces_validated_against_impl"] = st.Transitions + bst.Transitions + pst.Transitions
+		rep.Coverage["evaluations"] = st.Transitions + bst.Transitions + pst.Transitions
 	}
 	if atomic.LoadInt32(&memAbort) != 0 {
 		rep.Report(mc.Violation{Symptom: "resource.memory-blowup", Key: "exploration abandoned",
